@@ -117,3 +117,9 @@ pub fn bdd_exact(t: &[(u64, u64, u64)]) -> Option<Bdd> {
     };
     if triples_of(&b) == t { Some(b) } else { None }
 }
+
+/// a text produced by the library as ONE field of a case line: verbatim if it is non-empty printable ASCII without
+/// blanks (the normal case), otherwise `x:` + hex (a writer that lays its text out in lines must not break the line protocol)
+pub fn text_field(t: &str) -> String {
+    if !t.is_empty() && t.bytes().all(|b| b > 0x20 && b < 0x7f) && !t.starts_with("x:") { t.to_string() } else { format!("x:{}", hex(t.as_bytes())) }
+}
